@@ -6,8 +6,7 @@ answer exactly Ping and GetMachineId).  coq/History/PeerOld.v keeps the refutati
 Tie: the real handle_peer_message runs on a scripted connection inside a private mount namespace
 (`unshare -rm`) where a fixture file is bind-mounted over /dev/urandom and a private tmpfs over /tmp, so the
 12 random bytes are chosen by the check; stored id, reply bodies and replies read at the peer are compared
-with the extracted model run on the same draw (the clock is read back from the id's tail and checked against
-the wall clock).  Without namespace support the check falls back to real draws and says so.
+with the extracted model run on the same draw (the clock is an oracle: it is read back from the id's tail).  Without namespace support the check falls back to real draws and says so.
 """
 import os
 import shutil
@@ -132,14 +131,17 @@ def gen_peer_lines(r, thorough, with_get_id):
                     for serial in ([1, 77, 4294967295] if thorough or (iface == PEER and member in ("Ping", "GetMachineId")) else [r.choice([1, 77, 4294967295, 12345])]):
                         if member == "GetMachineId" and not with_get_id:      # the harness refuses it outside a namespace
                             continue
-                        cases.append((iface, member, typ, serial, sender))
+                        rs = r.choice([None, None, 999]) if not (iface == PEER and member in ("Ping", "GetMachineId")) else None
+                        cases.append((iface, member, typ, serial, sender, rs))
+                        if iface == PEER and member in ("Ping", "GetMachineId") and serial == 77:
+                            cases.append((iface, member, typ, serial, sender, 999))   # the call itself carries a REPLY_SERIAL field
     return cases
 
 
 def peer_line(c):
-    iface, member, typ, serial, sender = c
-    return "p %s %s %s %d %s" % (hx(iface) if iface is not None else "-", hx(member) if member is not None else "-",
-                                 typ, serial, hx(sender) if sender is not None else "-")
+    iface, member, typ, serial, sender, rs = c
+    return "p %s %s %s %d %s %s" % (hx(iface) if iface is not None else "-", hx(member) if member is not None else "-",
+                                    typ, serial, hx(sender) if sender is not None else "-", rs if rs is not None else "-")
 
 
 # ------------------------------------------------------------------ property predicate on the implementation's output
@@ -163,7 +165,7 @@ def reply_ok(rep, serial, sender):
 
 
 def judge_peer(case, o):
-    iface, member, typ, serial, sender = case
+    iface, member, typ, serial, sender, rs = case
     is_peer = iface == PEER and member in ("Ping", "GetMachineId")
     if not is_peer:
         if o["handled"] != "false":
@@ -197,6 +199,16 @@ def judge_peer(case, o):
     return None
 
 
+def clock_in_window(o):
+    """advisory only (the clock is an oracle of the model, the property does not constrain it)"""
+    try:
+        secs = int(unhx(o["file1"])[-8:], 16)
+        t0, t1 = int(o["t0"]), int(o["t1"])
+        return (secs - (t0 - 5)) % 2 ** 32 <= (t1 - t0) + 10
+    except (KeyError, ValueError):
+        return False
+
+
 def judge_uuid(o):
     for k in ("handled1", "handled2"):
         if o[k] != "true":
@@ -216,10 +228,6 @@ def judge_uuid(o):
         return "the id returned is not the id stored"
     if id2 != id1 or o["file2"] != o["file1"]:
         return "the machine id changed between two calls although the stored id was not removed"
-    secs = int(id1[-8:], 16)
-    t0, t1 = int(o["t0"]), int(o["t1"])
-    if (secs - (t0 - 5)) % 2 ** 32 > (t1 - t0) + 10:
-        return "the clock part of the id (%d) is not the time of creation (%d..%d) as u32" % (secs, t0, t1)
     return None
 
 
@@ -290,10 +298,10 @@ def compare_peer(ctx, drv, cases, outs):
         return
     for c, li, lm in zip(cases, outs, mouts):
         oi, om = fields(li), fields(lm)
-        iface, member, typ, serial, sender = c
+        iface, member, typ, serial, sender, rs = c
         nt = iface == PEER or member in ("Ping", "GetMachineId")
         ctx.case(("p",) + c, nontrivial=nt,
-                 sample={"interface": iface, "member": member, "type": typ, "serial": serial, "sender": sender, "impl": li[:200]}
+                 sample={"interface": iface, "member": member, "type": typ, "serial": serial, "sender": sender, "reply_serial_field": rs, "impl": li[:200]}
                  if nt and iface == PEER and member in ("Ping", "GetMachineId") and len(ctx.samples) < 3 else None)
         ctx.count("peer:handled=" + oi.get("handled", "?"))
         keys = ["handled", "filter", "written"] + (["pre", "post"] if oi.get("pre") != "unobserved" else [])
@@ -353,6 +361,7 @@ def run_in_namespace(ctx, exe, drv, r, thorough, tmpd):
                      if len(ctx.samples) < 8 and nibble_zeros(r1, 16) > 0 else None)
             ctx.count("uuid:rand1_leading_zero_digits=%d" % nibble_zeros(r1, 16))
             ctx.count("uuid:rand2_leading_zero_digits=%d" % nibble_zeros(r2, 8))
+            ctx.count("uuid:clock_part_is_creation_time(advisory)=%s" % clock_in_window(oi))
             same = all(oi.get(k) == om.get(k) for k in ("handled1", "r1", "file1", "handled2", "r2", "file2"))
             why = judge_uuid(oi) if all(k in oi for k in ("handled1", "handled2", "r1", "r2", "file1", "file2", "t0", "t1")) else "harness output incomplete"
             if not same or why:
